@@ -108,7 +108,12 @@ def install(owner: Any, name: str, post: Callable | None = None, *, mon: str | N
     classmethod / staticmethod descriptors are re-wrapped as such.
     """
     raw = owner.__dict__[name] if isinstance(owner, type) else getattr(owner, name)
-    mon_name = mon or f"{getattr(owner, '__name__', owner)}.{name}"
+    import types
+
+    if isinstance(owner, types.ModuleType):
+        mon_name = mon or name
+    else:
+        mon_name = mon or f"{getattr(owner, '__name__', owner)}.{name}"
     if isinstance(raw, classmethod):
         wrapped: Any = classmethod(_make_wrapper(raw.__func__, mon_name, post, on_exc))
     elif isinstance(raw, staticmethod):
